@@ -4,53 +4,51 @@ From TV Require Import Base.Prelude Model.C19_Settings Spec.C19_Domain Proofs.C1
 Import ListNotations.
 Open Scope Z_scope.
 
-(* HandshakeSettings().validate() on an installation without M2Crypto/pycrypto: cell 3 (the receiver's
-   cipherImplementations) goes from [openssl; pycrypto; python] to [python] *)
-Lemma frame_witness :
+(* ---- history ------------------------------------------------------------------------------------
+   Before /repo 851aa29, 8cc633e, c50a338 three statements were FALSE of the faithful model and this file
+   held their counterexamples (found by the correspondence run, registered as findings, since repaired):
+     * frame condition: HandshakeSettings().validate() without M2Crypto/pycrypto changed cell 3 (the
+       receiver's cipherImplementations) from [openssl; pycrypto; python] to [python];
+     * rejects_outside_domain at D_dc_sig_algs: dc_sig_algs = [(8,4)] was accepted;
+     * rejects_outside_domain at D_ticketKeys: ticketCipher = chacha20-poly1305 with a 16-byte key was accepted.
+   The same objects are kept below as regression witnesses of the repaired behaviour. *)
+
+Lemma frame_regression :
   wf ex_heap ex_settings = true /\
   is_ok (snd (validate std_tables no_backends ex_heap ex_settings)) = true /\
-  hget ex_heap 3%nat = S ["openssl"; "pycrypto"; "python"]%string /\
-  hget (fst (validate std_tables no_backends ex_heap ex_settings)) 3%nat = S ["python"]%string.
+  hget (fst (validate std_tables no_backends ex_heap ex_settings)) 3%nat = S ["openssl"; "pycrypto"; "python"]%string /\
+  (* the result's own list is the filtered copy *)
+  match snd (validate std_tables no_backends ex_heap ex_settings) with
+  | Ok s' => G (fst (validate std_tables no_backends ex_heap ex_settings)) s' F_cipherImplementations = S ["python"]%string
+  | Err _ => False
+  end.
 Proof. vm_compute. repeat split. Qed.
 
-Lemma frame_refuted :
-  ~ (forall T I h s h' r, wf h s = true -> validate T I h s = (h', r) ->
-       forall l, (l < List.length h)%nat -> hget h' l = hget h l).
-Proof.
-  intros H.
-  specialize (H std_tables no_backends ex_heap ex_settings
-                (fst (validate std_tables no_backends ex_heap ex_settings))
-                (snd (validate std_tables no_backends ex_heap ex_settings))
-                (proj1 frame_witness) (surjective_pairing _) 3%nat).
-  assert (L3 : (3 < List.length ex_heap)%nat) by (vm_compute; repeat constructor).
-  specialize (H L3). destruct frame_witness as [_ [_ [A B]]]. rewrite A, B in H. discriminate H.
-Qed.
-
-(* ---- documented domains that validate() does not enforce ---------------------------------------- *)
-(* dc_sig_algs = [rsa_pss_rsae_sha256]: outside the documented domain, accepted *)
 Definition ex_heap_dc : heap := with_cell ex_heap F_dc_sig_algs [VPair 8 4].
-Lemma dc_witness :
+Lemma dc_regression :
   wf ex_heap_dc ex_settings = true /\ typed (view ex_heap_dc ex_settings) = true /\
   dom std_tables D_dc_sig_algs (view ex_heap_dc ex_settings) = false /\
-  is_ok (snd (validate std_tables all_backends ex_heap_dc ex_settings)) = true.
+  snd (validate std_tables all_backends ex_heap_dc ex_settings) = Err ValueError.
 Proof. vm_compute. repeat split. Qed.
 
-(* ticketCipher = chacha20-poly1305 with a 16-byte key: outside the documented domain, accepted *)
 Definition ex_heap_tk : heap := with_cell ex_heap F_ticketKeys [VBytes [0;0;0;0;0;0;0;0;0;0;0;0;0;0;0;0]].
 Definition ex_settings_tk : settings := with_scalars ex_settings ex_scalars_chacha_ticket.
-Lemma ticket_witness :
+Lemma ticket_regression :
   wf ex_heap_tk ex_settings_tk = true /\ typed (view ex_heap_tk ex_settings_tk) = true /\
   dom std_tables D_ticketKeys (view ex_heap_tk ex_settings_tk) = false /\
-  is_ok (snd (validate std_tables all_backends ex_heap_tk ex_settings_tk)) = true.
+  snd (validate std_tables all_backends ex_heap_tk ex_settings_tk) = Err ValueError.
 Proof. vm_compute. repeat split. Qed.
 
-Lemma rejects_refuted :
-  ~ (forall T I h s d, wf h s = true -> typed (view h s) = true -> dom T d (view h s) = false ->
-       snd (validate T I h s) = Err ValueError).
-Proof.
-  intros H. destruct dc_witness as [A [B [C D]]].
-  rewrite (H std_tables all_backends ex_heap_dc ex_settings D_dc_sig_algs A B C) in D. discriminate D.
-Qed.
+(* another attribute bound to the very list object of cipherImplementations (dc_sig_algs := the same
+   location): the object that used to fall outside the aliasing hypothesis *)
+Definition ex_settings_alias : settings :=
+  {| locs := lupd (locs ex_settings) F_dc_sig_algs 3%nat; sc := sc ex_settings |}.
+Lemma alias_regression :
+  wf ex_heap ex_settings_alias = true /\
+  L ex_settings_alias F_dc_sig_algs = L ex_settings_alias F_cipherImplementations /\
+  is_ok (snd (validate std_tables no_backends ex_heap ex_settings_alias)) = true /\
+  hget (fst (validate std_tables no_backends ex_heap ex_settings_alias)) 3%nat = S ["openssl"; "pycrypto"; "python"]%string.
+Proof. vm_compute. repeat split. Qed.
 
 (* a value of the wrong kind (an int where a PSK tuple is expected) makes validate() raise TypeError *)
 Definition ex_heap_badpsk : heap := with_cell ex_heap F_pskConfigs [VInt 5].
@@ -59,10 +57,14 @@ Lemma wrong_kind_witness :
   snd (validate std_tables all_backends ex_heap_badpsk ex_settings) = Err TypeError.
 Proof. vm_compute. repeat split. Qed.
 
-(* non-vacuity of the domain theorems: the default object is typed, inside every domain and supported;
-   a 511-bit minimum key size is typed and outside D_keySizes *)
+(* non-vacuity of the domain theorems: the default object is typed, inside every domain and supported *)
 Lemma default_in_domain :
   wf ex_heap ex_settings = true /\ typed (view ex_heap ex_settings) = true /\
   in_domain std_tables (view ex_heap ex_settings) = true /\
   something_supported no_backends (view ex_heap ex_settings) = true.
+Proof. vm_compute. repeat split. Qed.
+
+Lemma tls11_validates :
+  wf ex_heap (with_scalars ex_settings ex_scalars_tls11) = true /\
+  is_ok (snd (validate std_tables no_backends ex_heap (with_scalars ex_settings ex_scalars_tls11))) = true.
 Proof. vm_compute. repeat split. Qed.
